@@ -152,3 +152,75 @@ def name_probes(rep, rnd, tier):
         return out
 
     vlib.correspond(rep, lines, oracle=oracle, trivial=netprops.trivial, tag="c05n")
+
+
+def hostile_variants(valids, rnd, tier):
+    """C01: replies whose variable line carries the NUMERIC variables servers really send (client limits, reserved slots,
+    flags …) in every combination and with values on both sides of each other and of the integer widths: whatever the numbers
+    are and however they relate, the query returns a value"""
+    keys = [b"maxclients", b"sv_maxclients", b"sv_privateClients", b"g_needpass", b"needpass", b"protocol", b"clients", b"sv_maxPing",
+            b"sv_minPing", b"fraglimit", b"timelimit", b"g_humanplayers", b"bots", b"sv_maxRate"]
+    vals = [b"0", b"1", b"4", b"8", b"16", b"32", b"127", b"128", b"255", b"256", b"-1", b"65535", b"65536", b"4294967295", b"", b"x", b"08", b"+3"]
+    out = []
+    picks = [v for v in valids if v.case().script and v.case().script[0] != "X" and v.case().script[0] and v.case().script[0][0] is not None]
+    for bi, v in enumerate(picks[: (120 if tier == "quick" else 3000)]):
+        c = v.case()
+        d = c.script[0][0]
+        nl = d.find(b"\n", d.find(b"\n") + 1) if d.startswith(b"\xff\xff\xff\xffn") is False else d.find(b"\n")
+        # the variable line ends at the first line feed after the header line (Quake 1: the header has none)
+        head_end = d.find(b"\n")
+        if head_end < 0:
+            continue
+        if d[4:5] == b"n":
+            var_end = head_end
+        else:
+            var_end = d.find(b"\n", head_end + 1)
+            if var_end < 0:
+                continue
+        extra = b""
+        for k in rnd.sample(keys, rnd.choice([2, 3, 3, 4, 5])):
+            extra += b"\\" + k + b"\\" + rnd.choice(vals)
+        c.script[0][0] = d[:var_end] + extra + d[var_end:]
+        out.append(c.line(f"{v.id}nv{bi}"))
+    return out
+
+
+def decode_variants(valid, rnd):
+    """C05: the same reply made as LONG as a datagram can be (65507 bytes: the IPv4 limit, 65527: the IPv6 limit, 65535: the
+    buffer the client asks for) with one more variable: all variables and players still come back"""
+    import copy, re
+    if valid.notwf or not valid.want.startswith("OK") or rnd.random() < 0.93:
+        return []
+    c = valid.case()
+    if not c.script or c.script[0] == "X" or not c.script[0] or c.script[0][0] is None or len(c.script[0]) != 1:
+        return []
+    d = c.script[0][0]
+    head_end = d.find(b"\n")
+    if head_end < 0:
+        return []
+    var_end = head_end if d[4:5] == b"n" else d.find(b"\n", head_end + 1)
+    m = re.search(r" U\[([^\]]*)\]", valid.want)
+    if var_end < 0 or m is None:
+        return []
+    out = []
+    for k, total in enumerate((65507, 65508, 65527, 65535)):
+        key = b"zzzzzzpad"
+        room = total - len(d) - len(key) - 2
+        if room < 1:
+            continue
+        val = bytes(97 + (i * 7 + k) % 26 for i in range(room))
+        c2 = valid.case()
+        c2.script[0][0] = d[:var_end] + b"\\" + key + b"\\" + val + d[var_end:]
+        entries = [e for e in m.group(1).split(",") if e]
+        if any(e.split("=")[0] == "x" + key.hex() for e in entries):
+            continue
+        entries.append("x" + key.hex() + "=x" + val.hex())
+        entries.sort(key=lambda e: bytes.fromhex(e.split("=")[0][1:]))
+        v = copy.copy(valid)
+        v.tags = dict(valid.tags)
+        v.tags["THM"] = "0"
+        v.want = valid.want[:m.start()] + " U[" + ",".join(entries) + "]" + valid.want[m.end():]
+        v.id = f"{valid.id}L{k}"
+        v.line = c2.line(v.id)
+        out.append(v)
+    return out
